@@ -4,6 +4,9 @@ from .. import core
 from ..runner import Spec
 
 W_MAX = 2 ** 30
+# generator restrictions around the open findings (see known_findings.json); set C16_UNRESTRICTED=1 on a tree where
+# the proposed fixes are applied to explore behind them
+UNRESTRICTED = os.environ.get("C16_UNRESTRICTED") == "1"
 
 
 def fh(x):
@@ -101,6 +104,7 @@ def gen_single(rng, tier):
     sid = g.new_id()
     g.lines.append("new %d %d %d" % (sid, k, rf))
     live = [sid]
+    deser = set()      # ids that came out of deserialize(): not reset (known finding reset-after-deserialize, extra stage)
     ws = weights(rng, pattern, n)
     if rng.random() < 0.3:      # mix in a second pattern half way
         ws = ws[: n // 2] + weights(rng, rng.choice(PATTERNS), n - n // 2)
@@ -115,9 +119,10 @@ def gen_single(rng, tier):
         elif r < 0.09 and len(live) < 6:
             d = g.new_id()
             g.lines.append("serde %d %d" % (tgt, d))
+            deser.add(d)
             if rng.random() < 0.5:
                 live.append(d)          # keep using the deserialized sketch
-        elif r < 0.10:
+        elif r < 0.10 and (tgt not in deser or UNRESTRICTED):
             g.lines.append("reset %d" % tgt)
     return g.lines
 
@@ -161,7 +166,7 @@ def gen_union(rng, tier):
         elif r < 0.42:
             d = g.new_id()
             g.lines.append("userde %d %d" % (uid, d))
-            if fed > maxk or any_est:
+            if (fed > maxk or any_est) and not UNRESTRICTED:
                 # The gadget went through deserialize() in estimation mode: on the pinned code every later update
                 # throws (known finding update-after-deserialize) and get_result() can read uninitialised marks
                 # (known finding, demonstrated by a dedicated witness in extra_stages): exhibit the throw, move on.
@@ -219,7 +224,7 @@ def gen_pseudo_exact(rng, tier):
 def gen_malformed(rng, tier):
     g = Gen(rng)
     bad_w = ["0000000000000000", "8000000000000000", "bff0000000000000", "7ff8000000000000", "7ff0000000000000",
-             "fff0000000000000", "0000000000000001", "7fdfffffffffffff"]
+             "fff0000000000000", "0000000000000001", "7e37e43c8800759c"]
     g.lines.append("new 0 %d 0" % rng.choice([0, 2 ** 31 - 1, 2 ** 31 - 2 if False else 3]))
     g.lines.append("new 1 3 %d" % rng.randrange(4))
     for i in range(rng.randint(3, 12)):
@@ -435,10 +440,24 @@ class C16(Spec):
          "umerge 2 1 D %s %s %s I 1 2 3" % (fh(0.5), fh(0.25), fh(0.75)), "userde 2 3",
          "ures 3 4 D %s %s %s I 1 2 3" % (fh(0.5), fh(0.25), fh(0.75))])
 
+    # ---- witness of reset() after deserialize() of an under-full sketch (heap overflow on the following updates)
+    RESET_WITNESS = (["new 0 16 1", "upd 0 2 %s" % fh(5), "serde 0 2", "reset 2"] +
+                     ["upd 2 %d %s" % (i, fh(3)) for i in range(3, 9)])
+
     def extra_stages(self, rep, tier, rng, broken):
         ok, exe, hlog = core.compile_harness(self.harness)
         if not ok:
             return
+        io, ioc, ierr = core.run_impl(exe, self.RESET_WITNESS, (), timeout=60)
+        rep.cov["reset_witness_outcome"] = ioc
+        if ioc == "asan" and "heap-buffer-overflow" in ierr and "update_warmup_phase" in ierr:
+            rep.violation("heap-overflow-after-reset-of-deserialized-sketch", dict(kind="safety", part="main"),
+                          self.RESET_WITNESS, True,
+                          "reset() of a deserialized under-full sketch records the initial capacity without reallocating the smaller "
+                          "arrays; the next updates write past them (ASan heap-buffer-overflow in update_warmup_phase)")
+        elif ioc != "ok":
+            rep.violation("safety:%s" % ioc, dict(kind="safety", part="main"), self.RESET_WITNESS, True,
+                          "implementation outcome %s on the reset-after-deserialize witness: %s" % (ioc, ierr[-400:]))
         io, ioc, ierr = core.run_impl(exe, self.UNINIT_MARKS_WITNESS, (), timeout=60)
         rep.cov["uninit_marks_witness_outcome"] = ioc
         if ioc == "ubsan" and "not a valid value for type 'bool'" in ierr and "decrease_k_by_1" in ierr:
